@@ -61,7 +61,30 @@ class OrdinalStub:
         return self.table.get(i)
 
 
-def run_derive(s, path, stub):
+def derive_via(root, path, via):
+    """derive `path` from `root`; `via` chooses the API route of the LAST step (the result must not depend on it):
+       {"gen": [a, b(, step)]}   parent.generate_children(interval), then the child with the wanted index
+       {"history": [i, ...]}     other children are requested from the same parent object first (errors ignored),
+                                 then the wanted index (possibly again)"""
+    path = list(path)
+    if not via or not path:
+        return root.derive_path(path)
+    parent = root.derive_path(path[:-1])
+    if "gen" in via:
+        kids = parent.generate_children(tuple(via["gen"]))
+        hits = [k for k in kids if k.index == path[-1]]
+        if len(hits) != 1:
+            raise LookupError("generate_children did not return exactly one child with the wanted index")
+        return hits[0]
+    for i in via.get("history", []):
+        try:
+            parent.ckd(i)
+        except Exception:
+            pass
+    return parent.ckd(path[-1])
+
+
+def run_derive(s, path, stub, via=None):
     rec = Recorder()
     if stub:
         rec.prf_stub = OrdinalStub(stub)
@@ -69,7 +92,7 @@ def run_derive(s, path, stub):
         try:
             # keep ONLY the derived node: the root and every intermediate node go out of scope (and are
             # collected) before the node is observed, as in `PrvKeyNode.parse(x).derive_path(p)` one-liners
-            node = make_start(s).derive_path(list(path))
+            node = derive_via(make_start(s), path, via)
             import gc
             gc.collect()
             ob = obs_node(node, s["prv"])
@@ -99,7 +122,7 @@ class Bip32Prop(BaseProp):
     def run_impl(self, case):
         k = case["kind"]
         if k == "Derive":
-            rec, ob = run_derive(case["start"], case["path"], case.get("stub"))
+            rec, ob = run_derive(case["start"], case["path"], case.get("stub"), case.get("via"))
             return {"ob": ob, "or": c_oracles(rec), "err": ob is None}
         if k == "DeriveRaw":
             rec = Recorder()
@@ -107,14 +130,14 @@ class Bip32Prop(BaseProp):
                 rec.prf_stub = OrdinalStub(case["stub"])
             with rec.installed():
                 try:
-                    node = make_start(case["start"]).derive_path(list(case["path"]))
+                    node = derive_via(make_start(case["start"]), case["path"], case.get("via"))
                     ob = [node.key.hex(), node.chain_code.hex(), node.depth, node.index]
                 except Exception:
                     ob = None
             return {"ob": ob, "or": c_oracles(rec), "err": ob is None}
         if k == "PubPriv":
             s = case["start"]
-            rec, ob_prv = run_derive(s, case["path"], case.get("stub"))
+            rec, ob_prv = run_derive(s, case["path"], case.get("stub"), case.get("via"))
             # neutered start: public key of the start node, same metadata
             rec2 = Recorder()
             if case.get("stub"):
@@ -127,7 +150,7 @@ class Bip32Prop(BaseProp):
                     from btc_hd_wallet.bip32 import PubKeyNode
                     pn = PubKeyNode(key=pk, chain_code=nd.chain_code, index=nd.index, depth=nd.depth, testnet=nd.testnet,
                                     parent_fingerprint=None if s["pfpr"] is None else bytes.fromhex(s["pfpr"]))
-                    ob_pub = obs_node(pn.derive_path(list(case["path"])), False)
+                    ob_pub = obs_node(derive_via(pn, case["path"], case.get("via")), False)
                 except Exception:
                     ob_pub = None
             rec.hmac512.update(rec2.hmac512)
@@ -209,7 +232,7 @@ class Bip32Prop(BaseProp):
     def stub_for_last_step(start, path, rng, il=None, ki=None, ir=None):
         """First pass with the real HMAC to learn the scalar of the last parent, then choose the
         PRF output of the last derivation step: either IL directly, or the IL that makes the child scalar ki."""
-        rec, ob = run_derive(start, path[:-1], None)
+        rec, ob = run_derive(start, path[:-1], None, None)
         if ob is None:
             return None
         kpar = int.from_bytes(bytes.fromhex(ob["key"])[-32:], "big")
@@ -219,3 +242,14 @@ class Bip32Prop(BaseProp):
             il = il(kpar)
         irb = ir if ir is not None else bytes(rng.randrange(256) for _ in range(32))
         return {str(len(path) - 1): (il.to_bytes(32, "big") + irb).hex()}
+
+    @staticmethod
+    def straddling_intervals(target):
+        """intervals for generate_children that contain `target` and cross 2^31 (ascending, descending, strided),
+        with the target away from the first element"""
+        out = []
+        if target >= H:
+            out += [[H - 2, target + 1], [H - 3, target + 2, 1], [target + 2, H - 3, -1]]
+        else:
+            out += [[target, H + 2], [H + 1, target - 1, -1], [target - 2 if target >= 2 else target, H + 3, 2 if target >= 2 else 1]]
+        return out
